@@ -527,6 +527,11 @@ func (s *Maps) FinishMapUpdates(updates *MapUpdates) {
 
 	// If we get here, the writes were successful, reset the maps delta tracking now the
 	// dataplane should be in sync.
+	for _, m := range updates.MapsToCreate {
+		// Record maps that we created even if they have no members yet (otherwise we'd
+		// re-create an empty map on every apply and never delete it if it is removed).
+		setMap(m.Name)
+	}
 	for mapName, members := range updates.MapToAddedMembers {
 		setMap(mapName)
 		for member := range members.All() {
